@@ -626,6 +626,12 @@ func (t *streamableHTTPClientTransport) getLastEventID() string {
 
 // setLastEventID records the ID of the last event received.
 func (t *streamableHTTPClientTransport) setLastEventID(eventID string) {
+	// The ID is echoed in the Last-Event-ID header: one that no header can carry is ignored.
+	for i := 0; i < len(eventID); i++ {
+		if c := eventID[i]; (c < 0x20 && c != '\t') || c == 0x7f {
+			return
+		}
+	}
 	t.stateMu.Lock()
 	defer t.stateMu.Unlock()
 	t.lastEventID = eventID
